@@ -661,8 +661,11 @@ func scenarioC20Service(rc *RunCtx) *Violation {
 	rc.Stats.Probes["service_cancel_while_callback_pending"] += c.cancelDuringCallback
 	rc.Stats.Probes["short_stdin_read"] += st.ShortReads
 	rc.Stats.Probes["coalesced_stdin_read"] += st.Coalesced
+	rc.Stats.Faults["stdio_fragmented_read"] += st.ShortReads
+	rc.Stats.Faults["stdio_coalesced_read"] += st.Coalesced
 	if abrupt {
 		rc.Probe("service_abrupt_eof")
+		rc.Stats.Faults["stdio_eof_at_arbitrary_offset"]++
 	}
 	if c.viol != nil {
 		c.viol.Detail += "; session: " + strings.Join(head(c.log, 60), " | ")
